@@ -401,6 +401,57 @@ def rule_model(ctx):
                     "differs from the tree sliced on the returned set")
     else:
         raise AnalysisError("ContractionCosts.remove: per-index lookup not recognised")
+    # (a') (seed C07_10) the model maintains every figure for every removal: no update of a figure in
+    # `remove` is switched by a caller option — the object returned (and cached by the finder, and used as
+    # the parent of later removals) reports .size/.flops/.nslices of the sliced contraction
+    params = {a.arg for a in rm.node.args.args + rm.node.args.kwonlyargs} - {"self", "ix"}
+    la = ctx.r.local_assignments(rm)
+
+    def option_names(test):
+        out = set()
+        for x in ast.walk(test):
+            if isinstance(x, ast.Name):
+                if x.id in params:
+                    out.add(x.id)
+                else:
+                    for v in la.get(x.id, []):
+                        if {y.id for y in ast.walk(v) if isinstance(y, ast.Name)} & params and \
+                                not isinstance(v, ast.IfExp):
+                            out.add(x.id)
+        return out
+    figures = ("_flops", "_sizes", "_where", "_flop_reductions", "_write_reductions", "contractions", "nslices", "size_dict")
+    n_upd = 0
+    switched = []
+    for n in walk_local(rm.node):
+        tgt = None
+        if isinstance(n, (ast.Assign, ast.AugAssign, ast.Delete)):
+            tg = n.targets if not isinstance(n, ast.AugAssign) else [n.target]
+            for t in tg:
+                b_ = t
+                while isinstance(b_, ast.Subscript):
+                    b_ = b_.value
+                if isinstance(b_, ast.Attribute) and b_.attr in figures:
+                    tgt = b_.attr
+        elif isinstance(n, ast.Expr) and isinstance(n.value, ast.Call) and isinstance(n.value.func, ast.Attribute) \
+                and isinstance(n.value.func.value, ast.Attribute) and n.value.func.value.attr in figures \
+                and n.value.func.attr in ("add", "discard", "pop", "remove", "update", "append"):
+            tgt = n.value.func.value.attr
+        if tgt is None:
+            continue
+        n_upd += 1
+        for i, in_true in C.enclosing_ifs(rm, n):
+            opts = option_names(i.test)
+            if opts:
+                switched.append((n, tgt, i, opts))
+    key = ctx.key(rm, "C07-MODEL", "always-maintained")
+    if switched:
+        n, tgt, i, opts = switched[0]
+        r.violation(key, C.loc(rm, n), f"the update of `{tgt}` runs only under `{C.unparse(i.test, 50)}` (caller option "
+                    f"{sorted(opts)}): with it switched off the returned model — which the finder caches and derives "
+                    f"later removals from — reports a `{tgt.strip('_')}` figure of a different (less sliced) contraction")
+    else:
+        C.require(n_upd >= 6, "ContractionCosts.remove: figure updates not recognised")
+        r.ok(key, rm.loc, f"all {n_upd} figure updates are unconditional with respect to caller options")
     # (b) overhead baseline: original_flops comes from the model's own flops or is copied
     for f in cc.methods.values():
         for n in walk_local(f.node):
